@@ -206,15 +206,15 @@ macro "ev_mem" : tactic => `(tactic| (
        | (rw [List.mem_singleton.mp he]; pick_hyp h => exact MkPost.wf h.2 rfl))))
 
 /-- Closes the verification conditions about accumulated event lists. -/
-macro "ev_close0" : tactic => `(tactic| first
+macro "qev_close0" : tactic => `(tactic| first
   | q_close0
   | (intro s h; exact h.elim)
   | (show QInv _ ∧ ∀ e ∈ _, SEvent.WF e
      refine ⟨?_, ?_⟩
      · q_close0
      · ev_mem))
-macro "ev_close" : tactic => `(tactic| first
-  | ev_close0
+macro "qev_close" : tactic => `(tactic| first
+  | qev_close0
   | (simp_all; done))
 
 theorem placementSkip_q (time : Int) (p : PlacementS) (drop : Bool) :
@@ -223,13 +223,13 @@ theorem placementSkip_q (time : Int) (p : PlacementS) (drop : Bool) :
   case inv1 => exact evLoop
   case inv2 => exact evLoop
   case inv3 => exact evLoop
-  all_goals ev_close
+  all_goals qev_close
 attribute [local spec] placementSkip_q
 
 theorem placementEvents_q (time : Int) (p : PlacementS) :
     ⦃QA⦄ placementEvents time p ⦃post⟨fun r s => ⌜QInv s ∧ ∀ e ∈ r, e.WF⌝, fun _ => QA⟩⦄ := by
   mvcgen [placementEvents]
-  all_goals ev_close
+  all_goals qev_close
 
 attribute [local spec] placementEvents_q
 
